@@ -1,4 +1,5 @@
 import Memterm.Props.C07
+import Memterm.Proofs.SparseStep
 import Memterm.Proofs.Sgr
 import Memterm.Spec.C12
 
@@ -566,6 +567,16 @@ theorem dispatch_RM (ps : List Nat) (p : Bool) : csiDispatch 108 ps p = [.resetM
 example :
     let s := setMode (init 10 3) [3] true
     s.columns = 132 ∧ s.savedColumns = some 10 ∧ (resetMode s [3] true).columns = 10 := by decide
+
+/-! #### the sparse layer -/
+
+/-- DECSCNM flips the cells that EXIST in the buffer; never-written cells follow because they read
+    as `default_char()`, which consults the mode: together this is the dense "every cell" -/
+theorem sparse_setMode (ss : Sparse.SScreen) (ms : List Nat) (p : Bool) :
+    Sparse.abs (Sparse.setMode ss ms p) = setMode (Sparse.abs ss) ms p := Sparse.abs_setMode ss ms p
+
+theorem sparse_resetMode (ss : Sparse.SScreen) (ms : List Nat) (p : Bool) :
+    Sparse.abs (Sparse.resetMode ss ms p) = resetMode (Sparse.abs ss) ms p := Sparse.abs_resetMode ss ms p
 
 end C12
 end Memterm
